@@ -429,9 +429,12 @@ Proof. exact empty_topic_witness. Qed.
     The key names the right log ([c01_run_key_shape], no hypothesis at all): [f] is a plain filter
     (no "$share/" prefix) and [i] = [filter_indexes f]; by [c01_log_invariant] that log's filter
     is [f] and every entry in it is a publish whose topic matches [f].
-    Not covered here: that an accepted message reaches the log of every matching filter (cache
-    completeness of [dl_matches]; checked by the monitor on implementation traces). *)
-From Rumqtt Require Import Router.TraceRun Router.TraceRunThm Router.TraceRunContent Router.TraceRunShape Router.TraceRunFinal Router.TraceRunExamples.
+    From acceptance to the logs ([c01_accept_reaches_all], Router/TraceRunAccept.v): in every
+    reachable state a publish that [append_to_commitlog] accepts is appended, exactly once, to
+    the log of EVERY filter in [filter_indexes] that matches its topic and to no log whose filter
+    does not match — the topic->filters cache [publish_filters] is complete and duplicate-free
+    in every reachable state ([c01_match_cache_complete]), whatever the HashMap order (oracle). *)
+From Rumqtt Require Import Router.TraceRun Router.TraceRunThm Router.TraceRunContent Router.TraceRunShape Router.TraceRunFinal Router.TraceRunAccept Router.TraceRunExamples.
 From Rumqtt Require Import Router.Model Router.RunDefs.
 
 Theorem c01_run_ghost_erases : forall (ops : list (list oracle * rop)) (st : rstate),
@@ -656,3 +659,38 @@ Theorem c01_run_example_resume :
   map kshort (ktrace (2, [116], 0) tr) = (3, 0, 0) :: fwds 0 3 /\
   exists o : outgoing, slab_get (r_obufs st) 0 = Some o /\ o_link o = 2 /\ lenN (o_inflight o) = 3.
 Proof. exact trace_run_resume. Qed.
+
+(** ---- from acceptance to the filter logs.  [PFInv dl]: every cached list of [publish_filters] is
+    duplicate-free and contains the log number of every filter of [filter_indexes] matching the
+    cached topic; [AInv] = [DLInv] (soundness, above) and [PFInv].  [appended dl dl' i item]: log
+    [i] exists before and after, with the same filter, and every history of it is extended by
+    exactly [item]; [unappended dl dl' i]: same log content. *)
+Theorem c01_match_cache_complete : forall (cfg : config) (st0 : rstate) (ops : list (list oracle * rop)) (st : rstate),
+  init cfg = Ok st0 -> RunDefs.run st0 ops = Ok st ->
+  DLInv (r_datalog st) /\
+  forall (t : str) (v : list N), In (t, v) (dl_pfilters (r_datalog st)) ->
+    NoDup v /\ forall (f : str) (i : N), In (f, i) (dl_findex (r_datalog st)) -> matches t f = Ok true -> In i v.
+Proof. exact reachable_pf. Qed.
+
+Theorem c01_accept_reaches_all : forall (cfg : config) (st0 : rstate) (ops : list (list oracle * rop)) (st : rstate)
+    (id : N) (p : publish) (props : option pprops) (st' : rstate),
+  init cfg = Ok st0 -> RunDefs.run st0 ops = Ok st ->
+  append_to_commitlog st id p props = Ok (st', AppOk) ->
+  exists (topic : str) (item : pubdata),
+    p_payload (fst item) = p_payload p /\ p_topic (fst item) = topic /\ p_retain (fst item) = false /\
+    (match props with Some pr => pp_alias pr | None => None end = None -> topic = p_topic p) /\
+    dl_findex (r_datalog st') = dl_findex (r_datalog st) /\
+    (forall (f : str) (i : N), In (f, i) (dl_findex (r_datalog st)) -> matches topic f = Ok true ->
+       appended (r_datalog st) (r_datalog st') i item) /\
+    (forall (i : N) (d : data), nget (r_datalog st) i = Some d -> matches topic (d_filter d) <> Ok true ->
+       unappended (r_datalog st) (r_datalog st') i).
+Proof. exact accept_reaches_all_reachable. Qed.
+
+(** subscriptions "t" (log 0), "+" (log 1), "x" (log 2); a publish on "t" is appended to logs 0
+    and 1 (oracle order [1; 0]), not to log 2 *)
+Theorem c01_accept_example :
+  exists st0, init tx_cfg = Ok st0 /\ RunDefs.run st0 ax_ops = Ok (tx_st ax_ops) /\
+  append_to_commitlog (set_r_oracle (tx_st ax_ops) [OMatches [1; 0]]) 3 ax_pub None = Ok (ax_st', AppOk) /\
+  dl_findex (r_datalog (tx_st ax_ops)) = [([116], 0); ([43], 1); ([120], 2)] /\
+  ends (tx_st ax_ops) = [Some 0; Some 0; Some 0] /\ ends ax_st' = [Some 1; Some 1; Some 0].
+Proof. exact accept_example. Qed.
